@@ -165,7 +165,8 @@ class IbanTask(T.Task):
         return o
 
     def native_agree(self, inp):
-        p = inp["p"]
+        from props.bictasks import spec_clean
+        p = spec_clean(inp["p"])       # the code gets the text as given, the spec the sidecar's own Clean(text)
         c = self.native_code(inp)
         tab = table()
         cc = p[:2]
@@ -201,6 +202,10 @@ class IbanTask(T.Task):
             v = last[:i] + rnd.choice([c for c in alpha if c != last[i]]) + last[i + 1:]
             return {"p": v, "validate_bban": False}
         s = self._sample(rnd)
+        if rnd.random() < 0.15:
+            from props.bictasks import raw_variant
+            s["p"] = raw_variant(rnd, s["p"])
+            return s
         if self.cc and len(s["p"]) == self.L + 4 and not s["validate_bban"]:
             try:
                 if S.accept_k(s["p"], self.cc, self.cls):
